@@ -570,11 +570,11 @@ Section LastBlock.
     rewrite <- (Hex k Hk).
     apply edge_res_blk_ext; intros i j l.
     - unfold blk_x, new_ex, cur. cbn [Z.eqb Pos.eqb].
-      rewrite upd3_self; [rewrite upd3_self; reflexivity|reflexivity].
+      rewrite upd3_self; [apply upd3_self; reflexivity|symmetry; apply upd3_self; reflexivity].
     - unfold blk_y, new_ey, cur. cbn [Z.eqb Pos.eqb].
-      rewrite upd3_self; [rewrite upd3_self; reflexivity|reflexivity].
+      rewrite upd3_self; [apply upd3_self; reflexivity|symmetry; apply upd3_self; reflexivity].
     - unfold blk_z, new_ez, cur. cbn [Z.eqb Pos.eqb].
-      rewrite upd3_self; [rewrite upd3_self; reflexivity|reflexivity].
+      rewrite upd3_self; [apply upd3_self; reflexivity|symmetry; apply upd3_self; reflexivity].
   Qed.
 
   Lemma L3_last iback it izh iz iyh st : (iback = 0 \/ iback = 1) -> 2 <= nx ->
@@ -629,11 +629,12 @@ Section LastBlock.
 
   Lemma node_last n : node (1 - (nu - 1) mod 2) n (n - 1) = last_node nu n.
   Proof.
-    unfold node, last_node.
-    rewrite <- (Z.odd_succ (nu - 1)), <- Z.negb_odd.
-    replace (Z.succ (nu - 1)) with nu by lia.
-    rewrite (Zmod_odd (nu - 1)).
-    destruct (Z.odd (nu - 1)); cbn [negb Z.eqb Z.sub Z.opp Z.add Pos.eqb]; [reflexivity|lia].
+    unfold node, last_node. rewrite (Zmod_odd (nu - 1)).
+    replace (Z.odd nu) with (negb (Z.odd (nu - 1))).
+    2:{ rewrite Z.negb_odd, <- Z.odd_succ. f_equal. lia. }
+    destruct (Z.odd (nu - 1)).
+    - change (1 - 1) with 0. cbn [Z.eqb negb]. reflexivity.
+    - change (1 - 0) with 1. cbn [Z.eqb negb]. lia.
   Qed.
 
   Lemma sweeps_last (s0 : @St5 F) : ib5 s0 = 0 -> 1 <= nu -> 2 <= nx -> 2 <= ny -> 2 <= nz ->
@@ -643,9 +644,109 @@ Section LastBlock.
   Proof.
     intros H0 Hnu Hnx Hny Hnz Hpiv. rewrite Zfold_last by lia.
     pose proof (sweeps_ib (nu - 1) s0 ltac:(lia) H0) as Hib.
-    set (s' := Zfold 0 (nu - 1) _ s0) in *. clearbody s'.
+    set (s' := Zfold 0 (nu - 1) (fun it st => L1 it st) s0) in *. clearbody s'.
     pose proof (Z.mod_pos_bound (nu - 1) 2 ltac:(lia)) as Hm.
     rewrite <- !node_last in *. rewrite <- Hib in *.
     apply L1_last; try assumption. lia.
   Qed.
 End LastBlock.
+
+Section GSLast.
+  Context {F : Type} {O : FOps F}.
+  Hypothesis Fth : field_theory F0 F1 Fadd Fmul Fsub Fopp Fdiv Finv (@eq F).
+  Hypothesis two_nz : (1 + 1)%F <> 0%F.
+  Variables (ex ey ez sx sy sz eta_x eta_y eta_z zeta : Z -> Z -> Z -> F).
+  Variables (hx hy hz : Z -> F).
+  Hypothesis hx_nz : forall i, hx i <> 0%F.
+  Hypothesis hy_nz : forall i, hy i <> 0%F.
+  Hypothesis hz_nz : forall i, hz i <> 0%F.
+  Variables (nu nx ny nz : Z).
+
+  (* sharp form: only the pivots of the LAST block are needed *)
+  Theorem gauss_seidel_last_block_exact_at :
+    1 <= nu -> 2 <= nx -> 2 <= ny -> 2 <= nz ->
+    let ix := last_node nu nx in let iy := last_node nu ny in let iz := last_node nu nz in
+    (forall j, 0 <= j < 6 ->
+       pivot 6 (fst (gs_sys ex ey ez sx sy sz eta_x eta_y eta_z zeta hx hy hz nu nx nx ny ny nz nz
+                            (fun _ => 0%F) ix iy iz)) j <> 0%F) ->
+    let r := gauss_seidel nx ny nz ex ey ez sx sy sz eta_x eta_y eta_z zeta hx hy hz nu in
+    forall k, 0 <= k < 6 ->
+      edge_res (fst (fst r)) (snd (fst r)) (snd r) sx sy sz eta_x eta_y eta_z zeta hx hy hz
+        (cur (fst (fst r)) (snd (fst r)) (snd r) ix iy iz) ix iy iz k = 0%F.
+  Proof.
+    intros Hnu Hnx Hny Hnz ix iy iz Hpiv r k Hk. subst r.
+    pose proof (sweeps_last Fth two_nz sx sy sz eta_x eta_y eta_z zeta hx hy hz hx_nz hy_nz hz_nz
+                  nu nx nx ny ny nz nz ex ey ez (0, fill1 F0, ex, ey, ez) eq_refl
+                  Hnu Hnx Hny Hnz Hpiv k Hk) as G.
+    rewrite (gs_eq sx sy sz eta_x eta_y eta_z zeta hx hy hz nu nx nx ny ny nz nz ex ey ez
+                   eq_refl eq_refl eq_refl).
+    exact G.
+  Qed.
+
+  Lemma last_node_range n : 2 <= n -> 1 <= last_node nu n < n.
+  Proof. unfold last_node. destruct (Z.odd nu); lia. Qed.
+
+  (* with the pivot hypothesis of the other whole-kernel theorems *)
+  Theorem gauss_seidel_last_block_exact :
+    1 <= nu -> 2 <= nx -> 2 <= ny -> 2 <= nz ->
+    (forall ix iy iz, interior nx ny nz ix iy iz -> forall j, 0 <= j < 6 ->
+       pivot 6 (fst (gs_sys ex ey ez sx sy sz eta_x eta_y eta_z zeta hx hy hz nu nx nx ny ny nz nz
+                            (fun _ => 0%F) ix iy iz)) j <> 0%F) ->
+    let ix := last_node nu nx in let iy := last_node nu ny in let iz := last_node nu nz in
+    let r := gauss_seidel nx ny nz ex ey ez sx sy sz eta_x eta_y eta_z zeta hx hy hz nu in
+    forall k, 0 <= k < 6 ->
+      edge_res (fst (fst r)) (snd (fst r)) (snd r) sx sy sz eta_x eta_y eta_z zeta hx hy hz
+        (cur (fst (fst r)) (snd (fst r)) (snd r) ix iy iz) ix iy iz k = 0%F.
+  Proof.
+    intros Hnu Hnx Hny Hnz Hpiv ix iy iz.
+    apply (gauss_seidel_last_block_exact_at Hnu Hnx Hny Hnz).
+    apply Hpiv. unfold interior.
+    pose proof (last_node_range nx Hnx). pose proof (last_node_range ny Hny).
+    pose proof (last_node_range nz Hnz). auto.
+  Qed.
+End GSLast.
+
+(* ------------------------------------------------------------------ *)
+(* Non-vacuity: on a concrete 3 x 2 x 2 grid over Q (stretched cells, varying
+   zeta and eta, non-zero field and source) no pivot of the two interior
+   blocks (1,1,1), (2,1,1) vanishes -- the hypothesis of both theorems. *)
+From Coq Require Import QArith.
+From V Require Import Base.ExecQ.
+Local Open Scope Z_scope.
+Definition ah (i : Z) : Q := qz (2 + Z.abs i) 2.
+Definition azeta (i j k : Z) : Q := qz (1 + Z.abs i + 2 * Z.abs j + 3 * Z.abs k) 3.
+Definition aeta (i j k : Z) : Q := qz (- (2 + Z.abs i + Z.abs j * Z.abs k)) 5.
+Definition aex (i j k : Z) : Q := qz (1 + i - 2 * j + 3 * k) 2.
+Definition aey (i j k : Z) : Q := qz (2 - i + j + k) 3.
+Definition aez (i j k : Z) : Q := qz (1 + 2 * i - j + k) 4.
+Definition asx (i j k : Z) : Q := qz (3 - i + j) 7.
+Definition asy (i j k : Z) : Q := qz (i - k) 2.
+Definition asz (i j k : Z) : Q := qz (1 + j * k) 3.
+
+Example gs_pivots_example :
+  forall ix iy iz, interior 3 2 2 ix iy iz -> forall j, 0 <= j < 6 ->
+    pivot 6 (fst (gs_sys aex aey aez asx asy asz aeta aeta aeta azeta ah ah ah 2 3 3 2 2 2 2
+                         (fun _ => 0%F) ix iy iz)) j <> 0%F.
+Proof.
+  intros ix iy iz (Hx & Hy & Hz).
+  assert (Ey : iy = 1) by lia. assert (Ez : iz = 1) by lia.
+  assert (Ex : ix = 1 \/ ix = 2) by lia. subst iy iz.
+  destruct Ex as [-> | ->].
+  - by_nz qzero 6 (ldl 6 (fst (gs_sys aex aey aez asx asy asz aeta aeta aeta azeta ah ah ah
+                                  2 3 3 2 2 2 2 (fun _ => 0%F) 1 1 1))).
+  - by_nz qzero 6 (ldl 6 (fst (gs_sys aex aey aez asx asy asz aeta aeta aeta azeta ah ah ah
+                                  2 3 3 2 2 2 2 (fun _ => 0%F) 2 1 1))).
+Qed.
+
+Print Assumptions Zfold_rel3.
+Print Assumptions sys_matrix_indep_src.
+Print Assumptions solve_lin_ext.
+Print Assumptions L4_lin.
+Print Assumptions sweeps_rel3.
+Print Assumptions gauss_seidel_linear.
+Print Assumptions gauss_seidel_affine.
+Print Assumptions L4_exact.
+Print Assumptions sweeps_last.
+Print Assumptions gauss_seidel_last_block_exact_at.
+Print Assumptions gauss_seidel_last_block_exact.
+Print Assumptions gs_pivots_example.
